@@ -130,6 +130,10 @@ func (x *Exec) call(fr *Frame, st *State, c *ssa.CallCommon, site ssa.Instructio
 	if n, ok := types.Unalias(c.Value.Type()).(*types.Named); ok && n.Obj().Pkg() != nil {
 		key := "type:" + n.Obj().Pkg().Path() + "." + n.Obj().Name()
 		if fc := x.cs.Funcs[key]; fc != nil {
+			if len(fc.ParamNames) == len(args)+1 {
+				// "params self, a, b": the first name denotes the function value that is called
+				args = append([]Val{fv}, args...)
+			}
 			if err := x.callSite(fr, st, n.Obj().Name(), nil, sig, fc, args, pos); err != nil {
 				return Val{}, err
 			}
@@ -234,6 +238,11 @@ func (x *Exec) callSite(fr *Frame, st *State, what string, callee *ssa.Function,
 					cenv.names[n] = args[i]
 				}
 			}
+		}
+		// $arg0, $arg1, …: the arguments by position (receiver first), for callee parameter names that the
+		// caller's own variables shadow
+		for i := range args {
+			cenv.names[fmt.Sprintf("$arg%d", i)] = args[i]
 		}
 		return cenv
 	}
@@ -619,6 +628,10 @@ func (x *Exec) callContract(fr *Frame, st *State, fc *FuncContract, callee *ssa.
 		return Val{}, engineErr("call %s: %v", fc.Key, err)
 	}
 	for _, c := range fc.Ensures {
+		if strings.Contains(c.Text, "called(") || strings.Contains(c.Text, "spawned(") {
+			// a clause about the callee's own call sites / goroutines: meaningful only inside the callee
+			continue
+		}
 		g, err := post.Bool(c.E)
 		if err != nil {
 			return Val{}, engineErr("call %s ensures %q: %v", fc.Key, c.Text, err)
